@@ -301,6 +301,15 @@ def neg_probes():
     N["require_static_not_static/type_borrow"] = "#[derive(Collect)]\n#[collect(require_static)]\nstruct X<'a>(Borrowed<'a>);\nfn f<'gc, 'a>() { use_it::<'gc, X<'a>>(); }"
     N["require_static_not_static/type_generic_inst"] = "#[derive(Collect)]\n#[collect(require_static)]\nstruct X<T>(T);\nfn f<'gc>() { use_it::<'gc, X<Gc<'gc, u32>>>(); }"
     N["require_static_not_static/type_enum"] = "#[derive(Collect)]\n#[collect(require_static)]\nenum X<'gc> { A, B(GcWeak<'gc, u32>) }\nfn f<'gc>() { use_it::<'gc, X<'gc>>(); }"
+    # (the lifetime parameter is deliberately NOT called 'gc: that name takes a different path through the derive)
+    N["require_static_not_static/type_gc_lifetime_a"] = "#[derive(Collect)]\n#[collect(require_static)]\nstruct X<'a>(Gc<'a, u32>);\nfn f<'a>() { use_it::<'a, X<'a>>(); }"
+    N["require_static_not_static/type_gc_lifetime_a_named"] = "#[derive(Collect)]\n#[collect(require_static)]\nstruct X<'a> { last: Gc<'a, u32>, n: u8 }\nfn f<'a>() { use_it::<'a, X<'a>>(); }"
+    N["require_static_not_static/type_enum_lifetime_a"] = "#[derive(Collect)]\n#[collect(require_static)]\nenum X<'a> { A, B(GcWeak<'a, u32>) }\nfn f<'a>() { use_it::<'a, X<'a>>(); }"
+    N["require_static_not_static/type_lifetime_and_type_param"] = "#[derive(Collect)]\n#[collect(require_static)]\nstruct X<'a, T>(Gc<'a, u32>, T);\nfn f<'a>() { use_it::<'a, X<'a, u8>>(); }"
+    # a field type hidden behind a type-position macro: the derive cannot look inside, the bound must still be there
+    N["require_static_not_static/field_type_macro"] = "macro_rules! slot { ($l:lifetime, $t:ty) => { Gc<$l, $t> }; }\n#[derive(Collect)]\n#[collect(no_drop)]\nstruct X<'gc> { #[collect(require_static)] hidden: slot!('gc, u32), n: u8 }\nfn f<'gc>() { use_it::<'gc, X<'gc>>(); }"
+    N["require_static_not_static/field_type_macro_generic"] = "macro_rules! wrap { ($t:ty) => { Option<$t> }; }\n#[derive(Collect)]\n#[collect(no_drop)]\nstruct X<T> { #[collect(require_static)] hidden: wrap!(T) }\nfn f<'gc>() { use_it::<'gc, X<Gc<'gc, u32>>>(); }"
+    N["require_static_not_static/field_type_alias"] = "type Slot<'l> = Gc<'l, u32>;\n#[derive(Collect)]\n#[collect(no_drop)]\nstruct X<'gc> { #[collect(require_static)] hidden: Slot<'gc> }\nfn f<'gc>() { use_it::<'gc, X<'gc>>(); }"
     N["require_static_not_static/type_with_bound_clone"] = "#[derive(Collect)]\n#[collect(require_static, bound = \"where T: Clone\")]\nstruct X<T>(T);\nfn f<'gc>() { use_it::<'gc, X<Gc<'gc, u32>>>(); }"
     N["require_static_not_static/type_with_bound_empty"] = "#[derive(Collect)]\n#[collect(require_static, bound = \"\")]\nstruct X<'gc>(Gc<'gc, u32>);\nfn f<'gc>() { use_it::<'gc, X<'gc>>(); }"
     for pos, body in (("first", "#[collect(require_static)] a: Borrowed<'a>, b: u32"), ("last", "b: u32, #[collect(require_static)] a: Borrowed<'a>"), ("only", "#[collect(require_static)] a: Borrowed<'a>")):
@@ -356,6 +365,8 @@ def neg_probes():
     P["twin/require_static_field_bound_empty"] = "#[derive(Collect)]\n#[collect(no_drop, bound = \"\")]\nstruct X<'gc> { #[collect(require_static)] a: NotCollect, g: Gc<'gc, u32> }\nfn f<'gc>() { use_it::<'gc, X<'gc>>(); }"
     P["twin/require_static_field_static_borrow"] = "#[derive(Collect)]\n#[collect(no_drop)]\nstruct X { #[collect(require_static)] a: Borrowed<'static> }\nfn f<'gc>() { use_it::<'gc, X>(); }"
     P["twin/gc_lifetime"] = "#[derive(Collect)]\n#[collect(no_drop, gc_lifetime = 'gc)]\nstruct X<'gc, 'a>(Gc<'gc, &'a u8>);\nfn f<'gc, 'a: 'gc>() { use_it::<'gc, X<'gc, 'a>>(); }"
+    P["twin/require_static_field_type_macro_static"] = "macro_rules! wrap { ($t:ty) => { Option<$t> }; }\n#[derive(Collect)]\n#[collect(no_drop)]\nstruct X { #[collect(require_static)] hidden: wrap!(NotCollect) }\nfn f<'gc>() { use_it::<'gc, X>(); }"
+    P["twin/require_static_type_lifetime_a_static_inst"] = "#[derive(Collect)]\n#[collect(require_static)]\nstruct X<'a>(Borrowed<'a>);\nfn f<'gc>() { use_it::<'gc, X<'static>>(); }"
     P["twin/enum_fields"] = "#[derive(Collect)]\n#[collect(no_drop)]\nenum X<'gc> { A { a: u8 }, B(Gc<'gc, u32>), C }\nfn f<'gc>() { use_it::<'gc, X<'gc>>(); }"
     P["twin/bound_override"] = "#[derive(Collect)]\n#[collect(no_drop, bound = \"where T: gc_arena::Collect<'gc>\")]\nstruct X<T>(T);\nfn f<'gc>() { use_it::<'gc, X<Gc<'gc, u32>>>(); }"
     P["twin/generic_default_bound"] = "#[derive(Collect)]\n#[collect(no_drop)]\nstruct X<T>(T);\nfn f<'gc>() { use_it::<'gc, X<Gc<'gc, u32>>>(); }"
